@@ -7,3 +7,4 @@ import MhlModel.Tree
 import MhlModel.History
 import MhlModel.Seal
 import MhlModel.Commands
+import MhlModel.DirHash
